@@ -5,5 +5,6 @@ cd "$(dirname "$0")"
 java -version >/dev/null 2>&1 || { echo "java missing"; exit 1; }
 test -f /opt/veriftools/tla/tla2tools.jar || { echo "tla2tools.jar missing"; exit 1; }
 /venv/bin/python -c "import numpy, sys; sys.path.insert(0, '/repo'); import svgpathtools" || { echo "cannot import svgpathtools from /repo"; exit 1; }
+command -v apalache-mc >/dev/null 2>&1 || { echo "apalache-mc missing"; exit 1; }
 mkdir -p evidence replays
 echo "setup ok"
